@@ -10,9 +10,12 @@ NOT_APPLICABLE = json.load(open(os.path.join(HERE, "tools", "not_applicable.json
 
 props = [json.loads(l) for l in open(os.path.join(HERE, "properties.jsonl"))]
 ids = [p["id"] for p in props]
+READY = set(json.load(open(os.path.join(HERE, "tools", "ready.json"))))
 checks = []
 have = set()
 for pid in ids:
+    if pid not in READY:
+        continue
     if not os.path.exists(os.path.join(HERE, "vf", "props", pid.lower() + ".py")):
         continue
     m = importlib.import_module(f"vf.props.{pid.lower()}")
